@@ -17,7 +17,10 @@ EXTENDS Naturals, Sequences, FiniteSets, TLC
 CONSTANTS Outcomes,    \* outcome kinds of a source: a kind of returned value or the name of an exception class
           Returns,     \* the outcome kinds that are returned values ("ok" = [], "ok_list" = a non-empty list, "ok_none", ...)
           MaxLen,      \* longest program explored by the model checker
-          Mutation     \* "none" = the design; other values re-introduce a defect (sensitivity runs)
+          MaxCalls,    \* successive authenticate() calls on ONE strategy object (reconnect / retry), each with its
+                       \*   own list of sources; every call is judged against its own sources only
+          Mutation     \* "none" = the design; other values re-introduce a defect (sensitivity runs), e.g.
+                       \*   "shared_result" = one AuthResult kept on the strategy object and reused by every call
 
 ASSUME Returns \subseteq Outcomes /\ Returns # {}
 Succeeds(o) == o \in Returns      \* success = returns without raising; the value plays no role
@@ -28,8 +31,11 @@ VARIABLES prog,        \* Seq(Outcomes): source k behaves as prog[k]
           succeeded,   \* the local flag of authenticate()
           calls,       \* Seq of source indexes whose authenticate() was entered, in order
           result,      \* the AuthResult: Seq of [src, kind, of]
-          status       \* "running" | "returned" | "raised" | "propagated"
-vars == <<prog, pc, i, succeeded, calls, result, status>>
+          status,      \* "running" | "returned" | "raised" | "propagated"
+          call,        \* number of the current authenticate() call on this strategy object
+          prev,        \* the AuthResult the previous call returned / raised, as it is NOW
+          prevlen      \* ... and how many entries it had when it was handed out
+vars == <<prog, pc, i, succeeded, calls, result, status, call, prev, prevlen>>
 
 Programs == UNION {[1..n -> Outcomes] : n \in 0..MaxLen}
 
@@ -72,11 +78,12 @@ Expected(p) == [calls  |-> [k \in 1..Wanted(p) |-> k],
 Init == /\ prog \in Programs
         /\ pc = "next" /\ i = 0 /\ succeeded = FALSE
         /\ calls = <<>> /\ result = <<>> /\ status = "running"
+        /\ call = 1 /\ prev = <<>> /\ prevlen = 0
 
 NextSource == /\ pc = "next"
               /\ IF i < Len(prog) THEN i' = i + 1 /\ pc' = "attempt"
                                   ELSE i' = i /\ pc' = "finish"
-              /\ UNCHANGED <<prog, succeeded, calls, result, status>>
+              /\ UNCHANGED <<prog, succeeded, calls, result, status, call, prev, prevlen>>
 
 Attempt == /\ pc = "attempt"
            /\ LET k == IF Mutation = "reversed" THEN Len(prog) + 1 - i ELSE i IN
@@ -84,21 +91,33 @@ Attempt == /\ pc = "attempt"
                 /\ succeeded' = IF Mutation = "nonempty_list_not_success" THEN Succeeds(prog[k]) /\ prog[k] # "ok_list"
                                 ELSE Succeeds(prog[k])
            /\ pc' = "record"
-           /\ UNCHANGED <<prog, i, result, status>>
+           /\ UNCHANGED <<prog, i, result, status, call, prev, prevlen>>
 
 Record == /\ pc = "record"
           /\ LET k == calls[Len(calls)] IN
                result' = IF Mutation = "drop_failures" /\ ~Succeeds(prog[k]) THEN result
                          ELSE Append(result, Entry(prog, k))
+          /\ prev' = IF Mutation = "shared_result" /\ call > 1 THEN result' ELSE prev    \* (the same object, if shared)
           /\ pc' = IF succeeded /\ Mutation # "no_break" THEN "finish" ELSE "next"
-          /\ UNCHANGED <<prog, i, succeeded, calls, status>>
+          /\ UNCHANGED <<prog, i, succeeded, calls, status, call, prevlen>>
 
 Finish == /\ pc = "finish"
           /\ status' = IF succeeded \/ Mutation = "never_raises" THEN "returned" ELSE "raised"
           /\ pc' = "done"
-          /\ UNCHANGED <<prog, i, succeeded, calls, result>>
+          /\ UNCHANGED <<prog, i, succeeded, calls, result, call, prev, prevlen>>
 
-Next == NextSource \/ Attempt \/ Record \/ Finish
+\* the entries of an earlier call seen from a later one: none of them is a source, a return value or an exception
+\* of THIS call
+Foreign(res) == [k \in 1..Len(res) |-> [src |-> 0, kind |-> "other", of |-> 0]]
+\* authenticate() is called again on the same strategy object, with a new list of sources: it starts a new AuthResult
+NextCall == /\ pc = "done" /\ call < MaxCalls
+            /\ prog' \in Programs
+            /\ pc' = "next" /\ i' = 0 /\ succeeded' = FALSE /\ calls' = <<>> /\ status' = "running"
+            /\ result' = IF Mutation = "shared_result" THEN Foreign(result) ELSE <<>>
+            /\ prev' = result /\ prevlen' = Len(result)
+            /\ call' = call + 1
+
+Next == NextSource \/ Attempt \/ Record \/ Finish \/ NextCall
 Spec == Init /\ [][Next]_vars
 
 (* ---- invariants / action properties (the statement of C44 on the model) -------- *)
@@ -114,6 +133,8 @@ ResultTracksCalls == pc \in {"next", "attempt", "finish", "done"} =>
 FinalOK == pc = "done" => FinalClauses(prog, calls, status, result) = {}
 \* ... and is what the whole-program definition says
 LoopAgrees == pc = "done" => [calls |-> calls, status |-> status, result |-> result] = Expected(prog)
+\* a result that was handed out does not change when authenticate() is called again
+EarlierResultKept == Len(prev) = prevlen
 \* emitted for spec -> code replay: one case per program
-Emit == pc = "done" => PrintT(<<"CASE", prog, calls, status, result>>)
+Emit == (pc = "done" /\ call = 1) => PrintT(<<"CASE", prog, calls, status, result>>)
 =============================================================================
